@@ -218,6 +218,39 @@ end
 example : (Table.substitute [(1, (⟨[2], [false, true]⟩ : Table Nat))] ⟨[1, 3], [false, false, false, true]⟩)
     = ⟨[2, 3], [false, false, false, true]⟩ := by decide
 
+
+/-- substitution is simultaneous, not sequential: exchanging two variables exchanges their roles -/
+theorem expr_swap (a b : α) (hab : a ≠ b) (e : Expr α) (ρ : α → Bool) :
+    (e.substitute [(a, .lit b), (b, .lit a)]).den ρ =
+      e.den (fun x => if x = a then ρ b else if x = b then ρ a else ρ x) := by
+  rw [expr_substitute]
+  congr 1
+  funext x
+  simp only [composed, lookup, List.find?]
+  by_cases h1 : a = x
+  · subst h1; simp [Expr.den]
+  · have e1 : (a == x) = false := by simp [h1]
+    by_cases h2 : b = x
+    · subst h2
+      have e2 : (b == b) = true := by simp
+      simp [Expr.den, e1, Ne.symm hab]
+    · have e2 : (b == x) = false := by simp [h2]
+      simp [e1, e2, Ne.symm h1, Ne.symm h2]
+/-- … hence doing it twice gives the function back -/
+theorem expr_swap_twice (a b : α) (hab : a ≠ b) (e : Expr α) (ρ : α → Bool) :
+    ((e.substitute [(a, .lit b), (b, .lit a)]).substitute [(a, .lit b), (b, .lit a)]).den ρ = e.den ρ := by
+  rw [expr_swap a b hab, expr_swap a b hab]
+  congr 1
+  funext x
+  by_cases h1 : x = a
+  · subst h1; simp [Ne.symm hab]
+  · by_cases h2 : x = b
+    · subst h2; simp [Ne.symm hab]
+    · simp [h1, h2]
+/-- restriction is substitution of constants -/
+theorem expr_restrict_is_substitute (v : PVal α) (e : Expr α) :
+    e.restrict v = e.substitute (v.map fun p => (p.1, .const p.2)) := rfl
+
 /-- non-vacuity for diagrams: the swap `{a := b, b := a}` on `a & !b` is accepted and gives `b & !a`
     (the pre-repair sequential substitution collapsed it) -/
 example : (match Bdd.substitute [(1, Bdd.mkLiteral 2 true), (2, Bdd.mkLiteral 1 true)]
